@@ -282,6 +282,20 @@ def run(chk) -> None:
                 isinstance(n, ast.Call) and last(call_name(n)) == "_add_or_enqueue_event" for n in ast.walk(fn))
             chk.ob("C11.R5", f"{name} works on a copy of the incoming state whenever it changes it", copies or not writes_state, m=m, node=fn, fn=fn, instance=f"copy-before-write:{name}", reason="state is modified without `init.deepcopy()`")
 
+    # rewind_in_progress (the first stage of both the live start-up and every replay) must leave the state it is given untouched:
+    # BasicRuntime records the very object the loop starts from as init_state, and replay() rewinds that object again
+    rw_fn = m.functions.get("rewind_in_progress")
+    if rw_fn is None:
+        raise AnchorError("C11.R5: rewind_in_progress not found")
+    p0 = param(rw_fn, 0)
+    copies_first = any(isinstance(s_, ast.Assign) and isinstance(s_.value, ast.Call) and ast.unparse(s_.value.func) == f"{p0}.deepcopy" for s_ in rw_fn.body[:3])
+    sites = [(qn_, c_) for mod_ in repo.by_rel.values() if mod_.name.startswith("workflows") or mod_.name.startswith("llama_agents") for qn_, f_ in mod_.functions.items() for c_ in ast.walk(f_)
+             if isinstance(c_, ast.Call) and last(call_name(c_)) == "rewind_in_progress" and c_.args]
+    not_copied = [(qn_, c_) for qn_, c_ in sites if not (isinstance(c_.args[0], ast.Call) and last(call_name(c_.args[0])) in ("deepcopy", "copy"))]
+    chk.floor("C11.R5", "call sites of rewind_in_progress", len(sites), 2)
+    chk.ob("C11.R5", "rewind_in_progress works on a copy of the state it is given (or every caller hands it a copy): the recorded init_state is never rewound in place", copies_first or not not_copied,
+           m=m, node=rw_fn, fn=rw_fn, instance="copy-before-write:rewind_in_progress",
+           reason=f"rewind_in_progress mutates its argument and {[q for q, _ in not_copied][:3]} pass their own state object: the live start-up rewinds the object that is also recorded as init_state, and every replay rewinds it again (worker ids swap)")
     # now_seconds may only become a timestamp
     add = m.functions.get("_add_or_enqueue_event")
     sr = m.functions.get("_process_step_result_tick")
@@ -313,6 +327,7 @@ def run(chk) -> None:
 
 
 TWINS = [
+    Twin("rewind mutates the state it is given", CL_REL, "    state = state.deepcopy()\n    commands: list[WorkflowCommand] = []\n    for step_name, step_state in sorted(state.workers.items(), key=lambda x: x[0]):", "    commands: list[WorkflowCommand] = []\n    for step_name, step_state in sorted(state.workers.items(), key=lambda x: x[0]):", "C11.R5"),
     Twin("live view replays incrementally on a cached state", "packages/llama-index-workflows/src/workflows/context/external_context.py", "        state = snapshottable.init_state\n        new_state = rebuild_state_from_ticks(state, ticks)\n        return new_state", "        applied, state = getattr(self, \"_replayed\", None) or (0, snapshottable.init_state)\n        new_state = rebuild_state_from_ticks(state, ticks[applied:])\n        self._replayed = (len(ticks), new_state)\n        return new_state", "C11.R7"),
     Twin("live view skips the first tick", "packages/llama-index-workflows/src/workflows/context/external_context.py", "        new_state = rebuild_state_from_ticks(state, ticks)", "        new_state = rebuild_state_from_ticks(state, ticks[1:])", "C11.R7"),
     Twin("benign: live view without temporaries", "packages/llama-index-workflows/src/workflows/context/external_context.py", "        ticks = self._tick_log\n        snapshottable = self._require_snapshottable()\n        state = snapshottable.init_state\n        new_state = rebuild_state_from_ticks(state, ticks)\n        return new_state", "        return rebuild_state_from_ticks(self._require_snapshottable().init_state, self._tick_log)", None),
